@@ -97,7 +97,7 @@ func enumerateContents(r *core.Run) []*content {
 	}
 	var out []*content
 	var mu sync.Mutex
-	res, err := tlcrun.Run(r, tlcrun.Options{Module: "DataLoad", Config: cfg, Workers: 2, TimeoutSec: 900,
+	res, err := tlcrun.Run(r, tlcrun.Options{Module: "DataLoad", Config: cfg, Workers: r.Pick(1, 2), TimeoutSec: 900,
 		OnCase: func(raw []byte) {
 			var c content
 			if err := json.Unmarshal(raw, &c); err != nil || c.Spec != "DataLoad" {
